@@ -11,9 +11,9 @@ THEOREMS = ['segIntegral_closed', 'segIntegral_zero', 'firstOrderEntry_exact',
             'firstOrderEntry_masked_error', 'firstOrderEntry_error_current',
             'firstOrderEntry_zero_dt', 'firstOrderEntry_neg', 'ff_call_wiring',
             'ff_generalized_def', 'ff_fidelity_def', 'ff_fidelity_is_trace', 'ff_hermitian',
-            'ff_gen_hermitian', 'ff_posSemidef', 'ff_diag_nonneg']
-THEOREMS_TODO = ['cm_entry',
+            'ff_gen_hermitian', 'ff_posSemidef', 'ff_diag_nonneg', 'trace_Useg', 'cm_entry',
             'segment_trace_integral', 'cm_segment_form', 'cm_segment_form_error']
+LEAN_MODULES = ['FFVerif.Props.C01', 'FFVerif.Props.C01Seg']
 GEN_SITES = ['const:numeric._first_order_integral',
              'einsum:numeric_calculate_control_matrix_from_scratch_0',
              'einsum:numeric_calculate_filter_function_0',
